@@ -453,8 +453,10 @@ class Execution:
 
 # ----------------------------------------------------------------- exploration drivers
 
-def explore_bounded(bodies, check, bound, view, max_exec=None, stop_after=None):
-    """Stateless DFS over schedules with at most `bound` preemptions (iterative context bounding)."""
+def explore_bounded(bodies, check, bound, view, max_exec=None, stop_after=None, part=None):
+    """Stateless DFS over schedules with at most `bound` preemptions (iterative context bounding).
+    part=(k, P): only the subtrees whose FIRST deviation from the default schedule sits at a point index = k mod P (the union over
+    k is the whole bounded space; the default schedule itself belongs to part 0)."""
     n = trans = 0
     bad = []
     outcomes = {}
@@ -484,6 +486,8 @@ def explore_bounded(bodies, check, bound, view, max_exec=None, stop_after=None):
             tid, label, nen, pre = x.points[i]
             cost = base_cost + sum(1 for c, p in zip(x.choices[len(prefix):i], x.points[len(prefix):i]) if p[3] and c) + (1 if pre else 0)
             if cost > bound:
+                continue
+            if part is not None and not prefix and i % part[1] != part[0]:
                 continue
             for alt in range(1, nen):
                 stack.append(x.choices[:i] + [alt])
